@@ -208,9 +208,6 @@ def run(ck: Checker):
         worklist_rule(ck)
     with ck.soft('C07.NUM (add_sum_pow2_m1 instantiated as it stands)'):
         transpose_rule(ck)
-    ck.rule('C07.BASIS', 'every public function of the summation module that takes `basis`, instantiated with the basis spelled as a string (upper / lower case) and as the enum member for a range of sizes: only gates of the requested basis are created, and the result is still right')
-    num_folds.fold_basis(ck, 'C07.BASIS')
-    ck.floor('C07.BASIS', 4)
     # the two shape rules about the same clause (typestate of `basis`, reachable gate kinds) know one way of writing the dispatch
     with ck.soft('C07.BASIS (functions instantiated per basis spelling)'):
         n_ts = basis_rules(ck, [SUM], public)
@@ -231,6 +228,9 @@ def run(ck: Checker):
     with ck.soft('C07.ENDIAN-REL (both endiannesses instantiated and compared)'):
         R.check_endian(ck, 'C07.ENDIAN', [SUM], public, ENDIAN_EXEMPT, names=_compared)
     R.check_endian(ck, 'C07.ENDIAN', [SUM], public, ENDIAN_EXEMPT, but=_compared)
+    ck.rule('C07.BASIS', 'every public function of the summation module that takes `basis`, instantiated with the basis spelled as a string (upper / lower case) and as the enum member for a range of sizes: only gates of the requested basis are created, and the result is still right')
+    num_folds.fold_basis(ck, 'C07.BASIS')
+    ck.floor('C07.BASIS', 4)
     n = R.check_placeholders(ck, 'C07.PLACEHOLDER', [SUM])
     ck.need(n >= 1, f'only {n} placeholder-using functions of summation.py could be analysed (2 on the pinned tree)')
     ck.assume('level bookkeeping, distinct levels, the sum identity of composed circuits and the gate-count bounds are not decided')
